@@ -529,7 +529,13 @@ def r5(ctx):
     # sub-grouping covers all ids once: array_split of the full key list
     env = single_defs(f.node)
     sgs = env.get(U(loop.iter))
-    ok = sgs is not None and U(sgs).replace(" ", "") in (f"np.array_split(list({plates}.keys()),n_subs)", f"np.array_split(list({plates}),n_subs)")
+    ok = False
+    if sgs is not None and isinstance(sgs, ast.Call) and call_name(sgs) == "np.array_split" and len(sgs.args) == 2 and not sgs.keywords:
+        # whatever the section count is, array_split partitions its first argument: that must be the full list of plate ids
+        whole = U(inline(sgs.args[0], {k: v for k, v in env.items() if k != plates})).replace(" ", "")
+        ok = whole in (f"list({plates}.keys())", f"list({plates})", f"sorted({plates})", f"sorted({plates}.keys())", f"[*{plates}]", f"[*{plates}.keys()]")
+    elif sgs is not None and not (isinstance(sgs, ast.Call) and call_name(sgs) == "np.array_split"):
+        raise AnalysisError(f"{f.site()}: the plate sub-groups `{U(sgs)[:70]}` are not produced by np.array_split; whether they partition the ids is not decided by this rule")
     ctx.check("R5", f"{f.site()}::subgroups-partition-the-ids", ok, "subgroups = np.array_split(list(plates.keys()), n_subs)",
               f"subgroups are `{U(sgs) if sgs is not None else None}`")
     C09.r6(ctx)
